@@ -12,6 +12,7 @@ import os
 import subprocess
 from vlib import *
 
+THOROUGH_ROUNDS = 1      # repetitions of the conformance part in the thorough tier (fresh random draws each)
 LEVEL = "exploration"
 
 TARGETS = ["sc.from_bytes_mod_order", "sc.from_bytes_mod_order_wide", "sc.add", "sc.sub", "sc.mul", "sc.neg", "sc.invert", "sc.batch_invert",
